@@ -688,6 +688,50 @@ def _scale(ctx, prog):
                f"{fmt(valQ)}", key="C08.6:scale:orientations")
 
 
+def thorough(ctx):
+    """package-wide sweep (evo/ and contrib/): every function *outside* the
+    two trajectory classes that stores to, deletes or element-writes one of the
+    cached views or `timestamps` of some object — nobody but the classes'
+    own mutators may touch the private views; `timestamps` edits are listed"""
+    prog = ctx.prog
+    res = sweep(prog, "contrib", include_contrib=True)
+    listed = []
+    for q, r in sorted(res.items()):
+        f = r.func
+        if f.cls is not None and f.cls.qualname in (PATH, TRAJ):
+            continue
+        for e in r.events:
+            name = None
+            if e.kind in ("setattr", "delattr"):
+                name = e.data["name"]
+            elif e.kind in ("setitem", "augassign"):
+                tgt = e.data.get("base") if e.kind == "setitem" else \
+                    e.data.get("target")
+                cur = tgt
+                for _ in range(8):
+                    if cur is None or not isinstance(cur, T):
+                        break
+                    if cur.op == "attr" and cur.args[1] in VIEWS + (
+                            "timestamps", "poses_se3", "positions_xyz",
+                            "orientations_quat_wxyz"):
+                        name = cur.args[1]
+                        break
+                    if cur.op in ("sub", "elem", "upd", "mut"):
+                        cur = cur.args[0]
+                    else:
+                        break
+            if name in VIEWS:
+                ctx.ob("C08.1", e, False,
+                       f"{q} writes the private cached view {name} of a "
+                       f"trajectory from outside the class: the other views "
+                       f"are not refreshed", key=f"C08.1:outside-writer:{q}")
+            elif name in ("timestamps", "poses_se3", "positions_xyz",
+                          "orientations_quat_wxyz"):
+                listed.append(f"{e.where} {q}: {e.kind} on .{name}")
+    ctx.note("writes to public trajectory data outside the classes "
+             "(count-preserving, reviewed): " + "; ".join(listed))
+
+
 VARIANTS = [
     dict(name="scale-skips-positions", file="evo/core/trajectory.py",
          find="        if hasattr(self, \"_positions_xyz\"):\n"
